@@ -230,8 +230,13 @@ impl FileHasher<'_> {
         transform: Option<Transform>,
         log: &dyn Log,
     ) -> Result<FileHasher<'_>, Error> {
-        let transform_command_str = transform.as_ref().map(|t| t.command_str.as_str());
-        let cache = HashCache::open_default(transform_command_str, algorithm)?;
+        // Everything that determines what data get hashed must be a part of the cache identity.
+        // With `in_place` the output is read from the input file instead of the standard output.
+        let transform_id = transform.as_ref().map(|t| {
+            let mode = if t.in_place { "in-place:" } else { "" };
+            format!("{}{}", mode, t.command_str)
+        });
+        let cache = HashCache::open_default(transform_id.as_deref(), algorithm)?;
         Ok(FileHasher {
             algorithm,
             buf_len: 65536,
